@@ -781,3 +781,141 @@ func errorResultOf(call ssa.CallInstruction) (vals []ssa.Value, has bool) {
 	}
 	return vals, true
 }
+
+// ---------- alternatives of a merged value ----------
+
+// Alt is one way a value can come about: V itself, produced when control leaves From towards To
+// (a φ edge), or, for a value that is not a φ, V at the block where it is used (To == nil).
+type Alt struct {
+	V    ssa.Value
+	From *ssa.BasicBlock
+	To   *ssa.BasicBlock
+}
+
+// alternatives unfolds φ-nodes: every leaf value together with the edge it arrives on.
+func alternatives(v ssa.Value, at *ssa.BasicBlock) []Alt {
+	var out []Alt
+	seen := map[*ssa.Phi]bool{}
+	var walk func(v ssa.Value, from, to *ssa.BasicBlock)
+	walk = func(v ssa.Value, from, to *ssa.BasicBlock) {
+		if phi, ok := v.(*ssa.Phi); ok {
+			if seen[phi] {
+				return
+			}
+			seen[phi] = true
+			for i, e := range phi.Edges {
+				walk(e, phi.Block().Preds[i], phi.Block())
+			}
+			return
+		}
+		out = append(out, Alt{v, from, to})
+	}
+	walk(v, at, nil)
+	return out
+}
+
+// holdsFor reports whether the alternative only arises under a condition accepted by accept: a guard
+// (or short-circuit disjunction) controlling the block the value comes from, or the condition of the
+// very edge it arrives on.
+func (a Alt) holdsFor(accept func(cond ssa.Value, want bool) bool) bool {
+	if enteredOnlyUnder(a.From, accept) {
+		return true
+	}
+	if a.To != nil && len(a.From.Instrs) > 0 {
+		if ifi, ok := a.From.Instrs[len(a.From.Instrs)-1].(*ssa.If); ok && a.From.Succs[0] != a.From.Succs[1] {
+			cnd, flip := stripNot(ifi.Cond)
+			want := (a.From.Succs[0] == a.To) != flip
+			return accept(cnd, want)
+		}
+	}
+	return false
+}
+
+// everyPathCrosses reports whether every CFG path from the function's entry to target takes at least
+// one conditional edge for which accept(cond, polarity) holds. An edge inside a cycle is never
+// honoured (the condition could belong to an earlier iteration).
+func everyPathCrosses(target *ssa.BasicBlock, accept func(cond ssa.Value, want bool) bool) bool {
+	fn := target.Parent()
+	seen := map[*ssa.BasicBlock]bool{}
+	work := []*ssa.BasicBlock{fn.Blocks[0]}
+	for len(work) > 0 {
+		b := work[len(work)-1]
+		work = work[:len(work)-1]
+		if seen[b] {
+			continue
+		}
+		seen[b] = true
+		if b == target {
+			return false
+		}
+		ifi, isIf := b.Instrs[len(b.Instrs)-1].(*ssa.If)
+		for k, s := range b.Succs {
+			if isIf && b.Succs[0] != b.Succs[1] {
+				cnd, flip := stripNot(ifi.Cond)
+				want := (k == 0) != flip
+				if accept(cnd, want) && !blocksAfter(s)[b] {
+					continue
+				}
+			}
+			work = append(work, s)
+		}
+	}
+	return true
+}
+
+// relationOnEdge returns the ordering relation `x op y` that holds when the branch on cond is taken
+// (branch == true) or not taken: a comparison, negated for the false edge.
+func relationOnEdge(cond ssa.Value, branch bool) (op token.Token, x, y ssa.Value, ok bool) {
+	c, flip := stripNot(cond)
+	if flip {
+		branch = !branch
+	}
+	b, isB := c.(*ssa.BinOp)
+	if !isB {
+		return 0, nil, nil, false
+	}
+	op = b.Op
+	if !branch {
+		switch op {
+		case token.LSS:
+			op = token.GEQ
+		case token.LEQ:
+			op = token.GTR
+		case token.GTR:
+			op = token.LEQ
+		case token.GEQ:
+			op = token.LSS
+		case token.EQL:
+			op = token.NEQ
+		case token.NEQ:
+			op = token.EQL
+		default:
+			return 0, nil, nil, false
+		}
+	}
+	switch op {
+	case token.LSS, token.LEQ, token.GTR, token.GEQ, token.EQL, token.NEQ:
+		return op, b.X, b.Y, true
+	}
+	return 0, nil, nil, false
+}
+
+// eqOnEdge returns the comparison when taking the edge (cond with this polarity) means X == Y:
+// `X == Y` taken or `X != Y` not taken; nil otherwise.
+func eqOnEdge(cond ssa.Value, want bool) *ssa.BinOp {
+	if cond == nil {
+		return nil
+	}
+	c, flip := stripNot(cond)
+	if flip {
+		want = !want
+	}
+	b, ok := c.(*ssa.BinOp)
+	if !ok {
+		return nil
+	}
+	if (b.Op == token.EQL && want) || (b.Op == token.NEQ && !want) {
+		return b
+	}
+	return nil
+}
